@@ -66,6 +66,27 @@ def run(facts, rep, tier):
         io = r.icao_opt
         ok2 = isinstance(io, EnumV) and io.may("Some") and isinstance(io.payload("Some"), IntV) and io.payload("Some").lo >= 1
         rep.oblige(ok2, ("nonzero", df))
+        # ... and ONLY the zero address is dropped: the kept addresses are all of 1..2^24-1, and the only test on the address that
+        # guards the Some result is the comparison with zero
+        if ok2:
+            pv = io.payload("Some")
+            extra = []
+            for t_, tr_ in (io.variants["Some"][1] or {}).get("pc", ()):
+                if not isinstance(t_, tuple):
+                    continue
+                if t_[0] in ("Ne", "Gt", "Ge") and tr_ is True and t_[-1] in (0, 1):
+                    continue
+                if t_[0] == "Eq" and tr_ is False and t_[-1] == 0:
+                    continue
+                if t_[0] == "in_range" and len(t_) >= 5 and t_[2] in (0, 1) and (t_[3] > 0xFFFFFF or (t_[3] == 0xFFFFFF and t_[4] is True)):
+                    continue
+                extra.append(t_[0])
+            whole = pv.lo <= 1 and pv.hi >= 0xFFFFFF
+            rep.oblige(whole and not extra, ("only-zero-dropped", df))
+            if not (whole and not extra):
+                rep.add(Finding("R03.2", "non-zero address dropped (DF%d)" % df,
+                                "DF%d: get_icao keeps only the addresses %06X..%06X%s: a frame of any other non-zero address creates no row"
+                                % (df, max(pv.lo, 0), min(pv.hi, 0xFFFFFF), (" and tests the address with %s" % sorted(set(extra))) if extra else ""), None))
         if not ok2:
             rep.add(Finding("R03.2", "zero address not dropped (DF%d)" % df, "DF%d: get_icao may return Some(0): %r" % (df, io), None))
         v = io.payload("Some") if isinstance(io, EnumV) and io.may("Some") else None
